@@ -22,6 +22,7 @@ import (
 
 	"verifsim/check"
 	"verifsim/model"
+	"verifsim/run"
 )
 
 // verifDir is where evidence, replays and the known-findings file live: /verif,
@@ -61,6 +62,8 @@ func main() {
 		os.Exit(cmdCheck(os.Args[2:]))
 	case "worker":
 		os.Exit(cmdWorker(os.Args[2:]))
+	case "shrinkone":
+		os.Exit(cmdShrinkOne(os.Args[2:]))
 	case "replay":
 		os.Exit(cmdReplay(os.Args[2:]))
 	case "selftest":
@@ -89,6 +92,15 @@ func cmdWorker(args []string) int {
 	if s == nil {
 		fmt.Fprintln(os.Stderr, "unknown property", *prop)
 		return 2
+	}
+	check.OnHang = func(part *check.WorkerOut) {
+		b, _ := json.Marshal(part)
+		if *out != "" {
+			os.WriteFile(*out, b, 0644)
+		} else {
+			os.Stdout.Write(b)
+		}
+		os.Exit(0)
 	}
 	res := check.Worker(s, *tier, *seed, *k, *stride, *maxRuns, time.Now().Add(time.Duration(*secs*float64(time.Second))))
 	b, _ := json.Marshal(res)
@@ -146,6 +158,9 @@ func cmdReplay(args []string) int {
 		}
 		return 0
 	}
+	if rp.Violation.Class == "hang" && os.Getenv("NUTSIM_HANG_CHILD") == "" {
+		return hangReplay(*file, true)
+	}
 	if rp.Violation.Class == "race" && os.Getenv("NUTSIM_RACE_LOG") == "" {
 		return raceReplay(*file, true)
 	}
@@ -190,6 +205,168 @@ func raceReplay(file string, verbose bool) int {
 		return 2
 	}
 	return 0
+}
+
+// hangReplay re-executes a replay file of class "hang" in a child process and
+// reports 1 (reproduced) when the child is still running after RunTimeout.
+func hangReplay(file string, verbose bool) int {
+	self, err := os.Executable()
+	if err != nil {
+		return 2
+	}
+	cmd := exec.Command(self, "replay", "-file", file)
+	cmd.Env = append(os.Environ(), "NUTSIM_HANG_CHILD=1")
+	cmd.Stderr = os.Stderr
+	if err := cmd.Start(); err != nil {
+		return 2
+	}
+	done := make(chan error, 1)
+	go func() { done <- cmd.Wait() }()
+	select {
+	case <-done:
+		if verbose {
+			fmt.Printf("NOT-REPRODUCED (the run finished) file=%s\n", file)
+		}
+		return 0
+	case <-time.After(check.RunTimeout):
+		cmd.Process.Kill()
+		<-done
+		if verbose {
+			fmt.Printf("REPRODUCED: the run is still executing after %v file=%s\n", check.RunTimeout, file)
+		}
+		return 1
+	}
+}
+
+// childReplay re-executes a replay file in a child process with a time-out:
+// 1 = reproduced, 0 = not reproduced, 4 = the run does not return, 2 = trouble.
+// Everything the parent of a check re-executes goes through a child, so that a
+// run that hangs inside nutsdb cannot hang the check itself.
+func childReplay(file string) int {
+	self, err := os.Executable()
+	if err != nil {
+		return 2
+	}
+	cmd := exec.Command(self, "replay", "-file", file)
+	cmd.Env = append(os.Environ(), "NUTSIM_HANG_CHILD=1")
+	cmd.Stderr = os.Stderr
+	if err := cmd.Start(); err != nil {
+		return 2
+	}
+	done := make(chan error, 1)
+	go func() { done <- cmd.Wait() }()
+	select {
+	case err := <-done:
+		if err == nil {
+			return 0
+		}
+		if ee, ok := err.(*exec.ExitError); ok && ee.ExitCode() == 1 {
+			return 1
+		}
+		return 2
+	case <-time.After(check.RunTimeout):
+		cmd.Process.Kill()
+		<-done
+		return 4
+	}
+}
+
+// cmdShrinkOne minimises one failure (a check.Failure in -in) and writes the
+// replay (-out); exit 0 = replays deterministically, 3 = it does not.
+func cmdShrinkOne(args []string) int {
+	fs := flag.NewFlagSet("shrinkone", flag.ExitOnError)
+	in := fs.String("in", "", "")
+	out := fs.String("out", "", "")
+	fs.Parse(args)
+	b, err := os.ReadFile(*in)
+	if err != nil {
+		return 2
+	}
+	var f check.Failure
+	if err := json.Unmarshal(b, &f); err != nil {
+		return 2
+	}
+	s := check.Specs[f.Prop]
+	if s == nil || len(f.Viol) == 0 {
+		return 2
+	}
+	sig := f.Viol[0].Sig
+	small := check.Shrink(s, f.Seed, f.Program, sig, 40*time.Second)
+	res := s.Exec(f.Seed, small)
+	if len(res.Trace) > 0 {
+		// record the schedule that was taken: the replay follows it choice by choice
+		small.Schedule = res.Trace
+		small = check.MinimizeSchedule(s, f.Seed, small, sig, 15*time.Second)
+		res = s.Exec(f.Seed, small)
+	}
+	var hit *check.Replay
+	for _, v := range res.Viol {
+		if v.Sig == sig {
+			vv := v
+			hit = &check.Replay{Prop: s.ID, Seed: f.Seed, Tier: f.Tier, Program: small, Violation: vv, All: res.Viol, Original: f.Program}
+			break
+		}
+	}
+	if hit == nil {
+		// shrinking lost it (should not happen): fall back to the original program
+		hit = &check.Replay{Prop: s.ID, Seed: f.Seed, Tier: f.Tier, Program: f.Program, Violation: f.Viol[0], All: f.Viol}
+	}
+	stable := true
+	for i := 0; i < 3; i++ {
+		if ok, _ := check.Reproduce(hit); !ok {
+			stable = false
+		}
+	}
+	if !stable {
+		hit.Note = "WARNING: did not reproduce 3/3 times in-process"
+	}
+	if err := check.WriteReplay(*out, hit); err != nil {
+		return 2
+	}
+	if !stable {
+		return 3
+	}
+	return 0
+}
+
+// shrinkInChild runs cmdShrinkOne in a child with a time-out; it returns the
+// child's exit status, or 4 when it had to be killed.
+func shrinkInChild(f check.Failure, outPath string) int {
+	self, err := os.Executable()
+	if err != nil {
+		return 2
+	}
+	tmp, err := os.MkdirTemp(scratchParent(), "nutsim-shrink.")
+	if err != nil {
+		return 2
+	}
+	defer os.RemoveAll(tmp)
+	b, _ := json.Marshal(f)
+	in := filepath.Join(tmp, "failure.json")
+	if err := os.WriteFile(in, b, 0644); err != nil {
+		return 2
+	}
+	cmd := exec.Command(self, "shrinkone", "-in", in, "-out", outPath)
+	cmd.Stderr = os.Stderr
+	if err := cmd.Start(); err != nil {
+		return 2
+	}
+	done := make(chan error, 1)
+	go func() { done <- cmd.Wait() }()
+	select {
+	case err := <-done:
+		if err == nil {
+			return 0
+		}
+		if ee, ok := err.(*exec.ExitError); ok {
+			return ee.ExitCode()
+		}
+		return 2
+	case <-time.After(55*time.Second + 2*check.RunTimeout):
+		cmd.Process.Kill()
+		<-done
+		return 4
+	}
 }
 
 func scratchParent() string {
@@ -287,13 +464,20 @@ func cmdCheck(args []string) int {
 	distinct := map[uint64]bool{}
 	states := map[uint64]bool{}
 	scheds := map[uint64]bool{}
+	// one deadline for all workers: the search budget, the worker's own hang
+	// watchdog (RunTimeout + sampling) and a margin
+	killAt := time.Now().Add(time.Duration(secs*float64(time.Second)) + check.RunTimeout + 90*time.Second)
 	for _, p := range procs {
 		done := make(chan error, 1)
 		go func() { done <- p.cmd.Wait() }()
 		var werr error
+		wait := time.Until(killAt)
+		if wait < time.Second {
+			wait = time.Second
+		}
 		select {
 		case werr = <-done:
-		case <-time.After(time.Duration(secs*float64(time.Second)) + 120*time.Second):
+		case <-time.After(wait):
 			p.cmd.Process.Kill()
 			<-done
 			hangs++
@@ -367,6 +551,26 @@ func cmdCheck(args []string) int {
 			continue
 		}
 		seenSig[sig] = true
+		if f.Viol[0].Class == "hang" {
+			// an API call that does not return: not shrunk (every candidate
+			// would have to be run to the time-out in a process of its own);
+			// confirmed once in a fresh process
+			path := filepath.Join(verifDir, "replays", fmt.Sprintf("%s-%d.json", s.ID, f.Seed))
+			hit := &check.Replay{Prop: s.ID, Seed: f.Seed, Tier: *tier, Program: f.Program, Violation: f.Viol[0], All: f.Viol, Note: "hang: not minimised"}
+			if err := check.WriteReplay(path, hit); err != nil {
+				fmt.Fprintln(os.Stderr, "check: cannot write replay:", err)
+				return 2
+			}
+			if hangReplay(path, false) != 1 {
+				fmt.Fprintf(os.Stderr, "check: the hang of run %d (seed %d) did not reproduce in a fresh process; reported as tool trouble\n", f.Run, f.Seed)
+				return 2
+			}
+			violations++
+			fmt.Printf("VIOLATION property=%s replay=%s\n", s.ID, path)
+			fmt.Printf("  %s\n", firstLines(hit.Violation.Msg, 12))
+			fmt.Print(indent(hit.Program.String(), "  "))
+			continue
+		}
 		if f.Viol[0].Class == "race" {
 			// found by the race-detector build: not shrunk (the detector bounds
 			// its history, shrinking changes what it remembers); replayed three
@@ -402,42 +606,38 @@ func cmdCheck(args []string) int {
 			fmt.Printf("  %s\n", firstLines(hit.Violation.Msg, 40))
 			continue
 		}
-		small := check.Shrink(s, f.Seed, f.Program, sig, 40*time.Second)
-		res := s.Exec(f.Seed, small)
-		if len(res.Trace) > 0 {
-			// record the schedule that was taken: the replay follows it choice by choice
-			small.Schedule = res.Trace
-			small = check.MinimizeSchedule(s, f.Seed, small, sig, 15*time.Second)
-			res = s.Exec(f.Seed, small)
-		}
-		var hit *check.Replay
-		for _, v := range res.Viol {
-			if v.Sig == sig {
-				vv := v
-				hit = &check.Replay{Prop: s.ID, Seed: f.Seed, Tier: *tier, Program: small, Violation: vv, All: res.Viol, Original: f.Program}
-				break
-			}
-		}
-		if hit == nil {
-			// shrinking lost it (should not happen): fall back to the original program
-			hit = &check.Replay{Prop: s.ID, Seed: f.Seed, Tier: *tier, Program: f.Program, Violation: f.Viol[0], All: f.Viol}
-		}
-		stable := true
-		for i := 0; i < 3; i++ {
-			if ok, _ := check.Reproduce(hit); !ok {
-				stable = false
-			}
-		}
 		path := filepath.Join(verifDir, "replays", fmt.Sprintf("%s-%d.json", s.ID, f.Seed))
-		if !stable {
-			hit.Note = "WARNING: did not reproduce 3/3 times in-process"
-		}
-		if err := check.WriteReplay(path, hit); err != nil {
-			fmt.Fprintln(os.Stderr, "check: cannot write replay:", err)
-			return 2
-		}
-		if !stable {
+		f.Tier = *tier
+		var hit *check.Replay
+		switch st := shrinkInChild(f, path); st {
+		case 0:
+			rp, err := check.ReadReplay(path)
+			if err != nil {
+				fmt.Fprintln(os.Stderr, "check: cannot read the minimised replay:", err)
+				return 2
+			}
+			hit = rp
+		case 3:
 			fmt.Fprintf(os.Stderr, "check: failure of run %d (seed %d) did not replay deterministically; reported as tool trouble\n", f.Run, f.Seed)
+			return 2
+		case 4:
+			// minimisation did not finish (some candidate run does not return):
+			// report the program as found, after confirming it in a child
+			hit = &check.Replay{Prop: s.ID, Seed: f.Seed, Tier: *tier, Program: f.Program, Violation: f.Viol[0], All: f.Viol, Note: "not minimised: a candidate run of the minimisation did not return"}
+			if err := check.WriteReplay(path, hit); err != nil {
+				return 2
+			}
+			switch childReplay(path) {
+			case 1:
+			case 4:
+				hit.Violation = run.Violation{Class: "hang", StepID: -1, Op: -1, Sig: "hang/in-replay", Msg: "the run does not return within " + check.RunTimeout.String() + " when replayed in a fresh process (first seen as: " + f.Viol[0].Msg + ")"}
+				check.WriteReplay(path, hit)
+			default:
+				fmt.Fprintf(os.Stderr, "check: failure of run %d (seed %d) could neither be minimised nor replayed; reported as tool trouble\n", f.Run, f.Seed)
+				return 2
+			}
+		default:
+			fmt.Fprintf(os.Stderr, "check: minimisation of run %d (seed %d) failed (status %d); tool trouble\n", f.Run, f.Seed, st)
 			return 2
 		}
 		violations++
@@ -466,14 +666,35 @@ func cmdCheck(args []string) int {
 			}
 			continue
 		}
-		if ok, _ := check.Reproduce(rp); ok {
+		switch childReplay(path) {
+		case 1:
 			violations++
 			fmt.Printf("VIOLATION property=%s replay=%s\n", s.ID, path)
 			fmt.Printf("  (regression of a repaired defect) %s\n", rp.Violation.String())
+		case 4:
+			violations++
+			fmt.Printf("VIOLATION property=%s replay=%s\n", s.ID, path)
+			fmt.Printf("  (witness of a repaired defect) the run does not return within %v\n", check.RunTimeout)
+		case 2:
+			fmt.Fprintln(os.Stderr, "check: cannot replay regression witness", path)
+			return 2
 		}
 	}
 
 	// ---- known findings: every listed witness must still reproduce
+	check.ReproduceHook = func(rp *check.Replay) (bool, bool) {
+		tmp, err := os.MkdirTemp(scratchParent(), "nutsim-known.")
+		if err != nil {
+			return false, false
+		}
+		defer os.RemoveAll(tmp)
+		fp := filepath.Join(tmp, "witness.json")
+		if err := check.WriteReplay(fp, rp); err != nil {
+			return false, false
+		}
+		st := childReplay(fp)
+		return st == 1, st == 4
+	}
 	kn := check.RunKnown(s, os.Stdout)
 
 	// ---- evidence
